@@ -35,7 +35,7 @@ STYLES = ("rest", "google", "numpydoc")
 
 def probes():
     return ["partial_doc_with_2plus_undocumented", "permuted_doc", "import_inference_cmd", "gen_prepend_cmd", "exmod_cmd",
-            "gen_infer_mixed_kinds", "ambiguous_symbol_any",
+            "gen_infer_mixed_kinds", "ambiguous_symbol_any", "openapi_emit_ops", "gen_phase1_multi_fk", "docstring_with_footer",
             "sync_cmd", "doctrans_cmd", "openapi_cmd", "repeated_occurrences", "ops_ok_somewhere"]
 
 
@@ -74,8 +74,15 @@ def partial_doc_function(rng, probes_out):
     annotate = rng.random() < 0.5
     doc_spec = dict(spec, params=documented)
     sig = gen.render_signature(spec, annotate=annotate)
-    lines = ["def %s(%s):" % (spec["name"], sig),
-             gen.render_docstring(doc_spec, style, indent="    ", with_types=not annotate),
+    doc = gen.render_docstring(doc_spec, style, indent="    ", with_types=not annotate)
+    if rng.random() < 0.35:
+        # text after the parameter section (a footer): parsers that edit a scanned structure in place show up when the
+        # same docstring text is parsed twice in one process
+        footer = rng.choice(("Example:\n      %s(1)" % spec["name"], "Notes\n    -----\n    Kept for later.",
+                             "See also the other function."))
+        doc = doc[:doc.rindex('"""')].rstrip() + "\n\n    " + footer + '\n    """'
+        probes_out["docstring_with_footer"] = probes_out.get("docstring_with_footer", 0) + 1
+    lines = ["def %s(%s):" % (spec["name"], sig), doc,
              "    return %s" % ("0" if spec["returns"] else "None")]
     return "\n".join(lines) + "\n", spec
 
@@ -214,6 +221,32 @@ def command_ops(rng, pr):
                 "argv": ["gen_routes", "--crud", rng.choice(("CRD", "CR", "C")), "--model-path", "{ROOT}/models.py",
                          "--model-name", "Config", "--routes-path", "{ROOT}/routes.py"]})
     bump("openapi_cmd")
+    # the OpenAPI emitter on two different models (two operations): leftovers of one must not appear in the other
+    for mname in rng.sample(("Owner", "Pet", "Invoice", "Dataset"), 2):
+        mcols = rng.sample(("name", "age", "size", "label", "kind"), rng.randint(1, 3))
+        schema = {"$id": "https://example.com/%s.json" % mname.lower(), "type": "object", "description": "The %s" % mname,
+                  "properties": {c: {"description": "the %s" % c, "type": rng.choice(("string", "integer", "boolean"))}
+                                 for c in mcols}, "required": mcols[:1]}
+        out.append({"kind": "openapi_emit", "entries": [[mname, schema, "/api/%s" % mname.lower(), mcols[0],
+                                                          rng.choice(("CRD", "CR", "CD"))]]})
+    bump("openapi_emit_ops")
+    # gen --phase 1 / 2 on a directory of SQLAlchemy models whose Node references >= 3 other tables
+    others = rng.sample(("Element", "Owner", "Pet", "Invoice", "Dataset"), rng.randint(2, 4))
+
+    def model_src(name, fks=()):
+        body = ["from sqlalchemy import Column, ForeignKey, Integer, String", "", "Base = object", "", "",
+                "class %s(Base):" % name, '    """%s model"""' % name, "", '    __tablename__ = "%s"' % name.lower(), "",
+                "    %s_id = Column(Integer, primary_key=True)" % name.lower()]
+        for fk in fks:
+            body.append("    primary_%s = Column(%s, ForeignKey('%s.not_the_right_primary_key'))" % (fk.lower(), fk, fk.lower()))
+        return "\n".join(body) + "\n"
+    files_p = {"models/Node.py": model_src("Node", others)}
+    for o_ in others:
+        files_p["models/%s.py" % o_] = model_src(o_)
+    common = ["--name-tpl", "{name}", "--input-mapping", "{ROOT}/models/Node.py", "--emit", "sqlalchemy", "-o",
+              "{ROOT}/models/Node.py"]
+    out.append({"kind": "cmd", "files": files_p, "argv": ["gen"] + common + ["--phase", "1"]})
+    bump("gen_phase1_multi_fk")
     return out
 
 
